@@ -149,7 +149,7 @@ def replay(ctx, obj):
 
 
 CHECK = core.Check(
-    'C10', sc.CLUSTER, ['Props/C10.v', 'Props/C10H.v'], translate=sc.translate, correspond=correspond, oracle=oracle, replay=replay,
+    'C10', sc.CLUSTER, ['Props/C10.v', 'Props/C10H.v', 'Props/C10E.v'], translate=sc.translate, correspond=correspond, oracle=oracle, replay=replay,
     regressions=regressions, deps=('lib',),
     rule='per endpoint and event of simulator histories (scripted exchanges x configuration family, random walks with '
          'loss/duplication/replay/timeouts, failing IKE_SA rekeys, and a kernel refusal injected at each individual '
